@@ -314,7 +314,14 @@ fn compare_set<T: El>(
     model.items()
   );
   let iterated: Vec<T::M> = set.iter().map(El::to_model).collect();
+  // the owning routes out of the set keep the order as well
+  let owned: Vec<T::M> = models(&set.clone().into_iter().collect::<Vec<T>>());
+  let as_vec: Vec<T::M> = models(&set.clone().into_vec());
+  let by_index: Vec<T::M> = (0..set.len()).filter_map(|i| set.get(i)).map(El::to_model).collect();
   let ok = set.len() == model.len()
+    && owned == model.items()
+    && as_vec == model.items()
+    && by_index == model.items()
     && set.is_empty() == model.is_empty()
     && set.head().map(El::to_model).as_ref() == model.items().first()
     && set.tail().map(El::to_model).as_ref() == model.items().last()
